@@ -266,3 +266,28 @@ Proof.
   intros Hok. destruct (language_list_ok tbl f x Hok) as [Hnd Hm].
   apply check_enum_spec; auto.
 Qed.
+
+(** ---- arbitrary deterministic filters ---- *)
+Lemma check_filtered_is_gen member L rejected out :
+  check_filtered member L rejected out = check_filtered_gen member L (accepted rejected) out.
+Proof. reflexivity. Qed.
+
+Lemma check_filtered_gen_spec member L acc out :
+  check_filtered_gen member L acc out = true <->
+  NoDup out
+  /\ (forall p, In p out -> member p = true /\ acc p = true)
+  /\ (forall p, In p L -> forallb acc (subterms p) = true -> In p out).
+Proof.
+  unfold check_filtered_gen.
+  rewrite !andb_true_iff, (nodupb_spec prog_eqb prog_eqb_spec), !forallb_forall.
+  split.
+  - intros [[Hnd Hacc] Hcomp]. repeat split; auto.
+    + apply Hacc in H. apply andb_true_iff in H; tauto.
+    + apply Hacc in H. apply andb_true_iff in H; tauto.
+    + intros p Hp Hh. specialize (Hcomp p Hp). rewrite Hh in Hcomp. cbn in Hcomp.
+      apply (memb_spec prog_eqb prog_eqb_spec); auto.
+  - intros [Hnd [Hacc Hcomp]]. repeat split; auto.
+    + intros p Hp. destruct (Hacc p Hp) as [-> ->]; auto.
+    + intros p Hp. destruct (forallb acc (subterms p)) eqn:Hh; auto. cbn.
+      apply (memb_spec prog_eqb prog_eqb_spec); auto.
+Qed.
